@@ -59,4 +59,21 @@ theorem failed_attempt_never_caches_live (c : Cache) (h : c ≠ some .live) : (a
 example : (attempts attempt true 3 (outage false (some .live))).2 = [.timedOut, .ok, .ok] := by decide
 example : (attempts attempt true 2 (outage true (some .live))).2 = [.failFast, .ok] := by decide
 
+/-! ### "tunnels to other upstreams are unaffected throughout": a request that times out on a healthy shared connection -/
+
+/-- whatever the cache holds and however many tunnels are open: a request to a silent origin ends in bounded time
+    (never `hang`), leaves every open tunnel alone, and the next request to a healthy origin succeeds -/
+theorem silent_origin_spares_tunnels (s : Shared) :
+    (silentOrigin false s).2 ≠ .hang ∧ (silentOrigin false s).1.tunnels = s.tunnels ∧
+    (attempt true (silentOrigin false s).1.cache).2 = .ok := by
+  unfold silentOrigin
+  cases s.cache with
+  | none => simp [attempt]
+  | some l => cases l <;> simp [attempt]
+
+/-- closing the shared connection when the cached handle is cleared (the shape of seeded change C19c) tears down
+    tunnels that had nothing to do with the failed request -/
+theorem closing_on_clear_kills_tunnels :
+    (silentOrigin true { cache := some .live, tunnels := 3 }).1.tunnels = 0 := by decide
+
 end Redproxy.Props.C19
